@@ -602,6 +602,9 @@ PROPS["C07"]["require"]["quick"]["reaccepts_into_socket_with_established_connect
 PROPS["C17"]["require"]["quick"]["udp_forwards_verified_target_on_client_address"] = 1200
 PROPS["C17"]["require"]["quick"]["udp_replies_verified_target_on_client_address"] = 800
 PROPS["C16"]["require"]["quick"]["responses_verified_range-out-of-bounds"] = 3000
+# ranges with first > last, lengths beyond 32 bits etc. against a lenient content generator (one that returns what it can for any
+# length): whatever the server does with them must be a well-framed response or a close
+PROPS["C16"]["jobs"].append({"name": "rangeprobe", "engine": "httpserver", "mode": "rangeprobe", "args": {"n": T(300, 6000)}})
 PROPS["C19"]["require"]["quick"]["tcp_sockets_previously_opened_as_v6"] = 300
 PROPS["C19"]["require"]["quick"]["tcp_sockets_moved_in_mid_stream"] = 500
 PROPS["C20"]["require"]["quick"]["unrelated_socket_options_set"] = 1000
